@@ -4,9 +4,9 @@ from . import c05, c09
 ID = 'C10'
 HARNESSES = ['h_hist.cpp', 'h_c09.cpp']
 LEVEL = 'model_checking'
-BUDGET = {'quick': 290, 'thorough': 3300}
+BUDGET = {'quick': 290, 'thorough': 5400}
 BOUNDS = {'quick': 'Parameter::set(data, dims) refused for inconsistent dimensions (every extent a free byte) on a parameter holding nothing / ints / strings / a locked float, for int, float and string data: the parameter must be unchanged; every throwing call in all histories of depth 2 (56 operations incl. partly-invalid arguments: second of two new points/channels duplicate, untyped parameter into a new group, unnamed parameter, unknown group; 6 start states); full dump before = full dump after decided by z3 (payload symbolic); object printed, saved and reloaded afterwards',
-          'thorough': 'depth 3'}
+          'thorough': 'the same plus depth 3 (unchanged-after-refusal judged after every refused call; the save+reload epilogue only for the depth-2 histories)'}
 OUTSIDE = 'refusals not in the alphabet; histories deeper than the bound'
 ASSUMPTIONS = []
 RULE = 'one evaluation = one history (path); non-trivial = it contains at least one refused call'
@@ -37,7 +37,14 @@ def set_obligations(sec, job, st):
     B = c09.param_of(sec['before']); A = c09.param_of(sec['after'])
     return c09.param_eq('unchanged', B, A, 'parameter after a refused set() (%d values of type %d, %d free dimensions, prior content kind %d)' % (job['cfg']['ndata'], job['cfg']['type'], job['cfg']['ndims'], job['cfg']['prior']))
 
-def jobs(tier, seed): return hist_jobs(tier, seed, finish=2, dupdeclare=1) + set_jobs(tier)     # a duplicate declaration on a frame-less object is in the alphabet here: if it is refused it must change nothing
+def jobs(tier, seed):
+    # a duplicate declaration on a frame-less object is in the alphabet here: if it is refused it must change nothing
+    out = hist_jobs('quick', seed, finish=2, dupdeclare=1) + set_jobs(tier)
+    if tier == 'thorough':
+        # depth 3: "unchanged" is judged after every refused call; the save+reload epilogue (0.2 s per refused path, 3/4 of the
+        # cost) is kept for the depth-2 histories above only
+        out += hist_jobs('thorough', seed, finish=0, dupdeclare=1)
+    return out
 def run_job(engine, job):
     if job['name'] == 'refused-set': return std_run(engine, job, set_obligations, 'c09.end', ID, 'refused-set')
     return explore(engine, job, ID, per_step)
